@@ -47,8 +47,14 @@ SiteOk(e) ==
   ELSE IF ~e.isnan /\ e.pf # e.anchor.pf THEN "virtual-site-not-on-its-backbone-particle"
   ELSE "ok"
 
+\* a particle made by DoMapping states a weight for every atom of its 'graph' (the default weight 1 of do_average_bead is for
+\* hand-built particles: synthetic family)
+Weighted(e) == \A i \in DOMAIN e.cons : e.cons[i].hasw
+
 JudgeBead(e) ==
-  LET first == IF e.role = "site" THEN SiteOk(e) ELSE MeanOk(e.cwon, e.cons, e.isnan, e.pf) IN
+  LET first == IF e.role = "site" THEN SiteOk(e)
+               ELSE IF ~Weighted(e) THEN "constituent-without-a-mapping-weight"
+               ELSE MeanOk(e.cwon, e.cons, e.isnan, e.pf) IN
   IF first # "ok" THEN first ELSE WrittenOk(e, e.isnan, e.pf)
 
 JudgePair(e) ==
